@@ -16,7 +16,8 @@ EXPL = ("Decided: (R-NAN-ORDER) every float that orders a heap or a sort is wrap
         "and skip the update when the norm is NaN or <= 0; normalisation divides only under `norm > 0`; (R-FORM) Cosine answers 0 "
         "when the norm product vanishes; (S*) the search path is structurally value-independent: results are well-formed whatever "
         "the stored floats are (C03's traversal rules). NOT decided: termination of the recursion on all-duplicate sets "
-        "(probabilistic), bounded time, absence of panics from invariant-guarded unwraps.")
+        "(probabilistic), bounded time, absence of panics from invariant-guarded unwraps."
+        " The centroid guards are evaluated on the sign domain (only a positive norm may reach an update); the split retry loop must be bounded by a counter moving towards a constant; every deduplicated candidate must be scored (S8-SCORE every-candidate); the worklist progress rules of C14 and the C01 / C06 premise rule sets are re-evaluated.")
 
 
 def r_nan_order(ctx, rule='R-NAN-ORDER'):
